@@ -169,10 +169,11 @@ func main() {
 				k = 128
 			}
 			r.Cov[fmt.Sprintf("a_thorough_pass%d_exhaustive_subspace_bits22_16_below", pass)] = k
+			fmt.Printf("(a) thorough pass %d over all 2^32 first dwords: complete=%v, %d of 66560 blocks of 65536 first dwords (exhaustive for bits 22:16 < %d), %d Decode calls in %.0fs\n",
+				pass, ok, nb, k, decodeCalls.Load()-cp, time.Since(tp).Seconds())
 			r.Cov[fmt.Sprintf("a_thorough_pass%d_all_2^32_first_dwords_complete", pass)] = ok
 			r.Cov[fmt.Sprintf("a_thorough_pass%d_decode_calls", pass)] = decodeCalls.Load() - cp
 			r.Cov[fmt.Sprintf("a_thorough_pass%d_wall_s", pass)] = time.Since(tp).Seconds()
-			fmt.Printf("(a) thorough pass %d over all 2^32 first dwords: complete=%v, %d Decode calls in %.0fs\n", pass, ok, decodeCalls.Load()-cp, time.Since(tp).Seconds())
 			done = done && ok
 		}
 		r.Cov["a_thorough_decode_rate_per_s"] = float64(decodeCalls.Load()-c0) / time.Since(t1).Seconds()
